@@ -10,7 +10,8 @@ from ..core import Part
 RULE = ('per generated spec: reference encodings of valid values, their documented alternative forms '
         '(explicit null for nullable fields, bare-string void tags), those documents after 1-2 structural '
         'mutations (replace by every other JSON kind, drop/add/rename key, push numbers and lengths '
-        'across bounds, retag, wrap/unwrap, grow/shrink lists) and arbitrary small JSON documents, x '
+        'across bounds, retag, wrap/unwrap, grow/shrink lists), a window of the exhaustive single-key edits of '
+        'the pristine document (drop / rename / null each key, nested objects first) and arbitrary small JSON documents, x '
         '{strict, lenient} x {json_decode, json_compat_obj_decode}; oracle: (1) value or ValidationError, '
         'nothing else; (2) a three-valued reference validator written from docs/json_serializer.rst: '
         'ACCEPT => accepted with the expected value, REJECT => ValidationError, UNSPEC => only (1); '
